@@ -246,7 +246,7 @@ def body(chk):
     n = len(all_cases(chk))
     idx = list(range(n))
     if chk.quick and n > 900:
-        core = [i for i, (l, _) in enumerate(all_cases(chk)) if l.startswith(('two params', 'two functions', 'constructor assigns', 'split over two contracts')) or 'in the header of' in l or ('no write, ctor=' in l and l.startswith(('x:ui', 'x:ad', 'x:by', 'x:in')))]
+        core = [i for i, (l, _) in enumerate(all_cases(chk)) if l.startswith(('two params', 'two functions', 'constructor assigns', 'split over two contracts')) or 'in the header of' in l or (' on direct in public_function @ statement, ctor=None' in l) or (' on direct in constructor @ statement, ctor=None' in l) or ('no write, ctor=' in l and l.startswith(('x:ui', 'x:ad', 'x:by', 'x:in')))]
         chk.rng.shuffle(idx)
         idx = sorted(set(idx[:900]) | set(core))
     chk.bounds = {'files': '%d of %d x 4 detectors' % (len(idx), n),
